@@ -477,7 +477,7 @@ pub fn run(ctx: Ctx) -> ! {
     if m.get("cases") != expect {
         ctx.machinery(&format!("C29: enumerated {} cases, box has {}", m.get("cases"), expect));
     }
-    if m.get("satisfiable_requests_where_rten_returned_two_or_more_chunks") == 0 {
+    if m.get("satisfiable_requests_where_rten_returned_two_or_more_chunks") == 0 && ctx.violation_count() == 0 {
         ctx.machinery("C29: vacuous - no satisfiable request produced two or more chunks");
     }
     println!(
